@@ -169,7 +169,7 @@ def jobs(L, timeout):
     asserts = [
         ('read/gcount-is-min(n,declared-end-minus-tellg)-a-function-of-counts-only', 'u.m_gcount == want'),
         ('read/tellg-advances-by-gcount', 'u.m_tellg == o.m_tellg + want'),
-        ('read/eof-and-fail-iff-the-request-reaches-past-the-declared-end', 'u.m_rdstate == ((n + o.m_tellg > o.m_fileSize) ? (IOS_eofbit | IOS_failbit) : IOS_goodbit)'),
+        ('read/eof-and-fail-iff-the-request-reaches-past-the-declared-end-(a-zero-length-read-keeps-the-state)', 'u.m_rdstate == ((n + o.m_tellg > o.m_fileSize) ? (IOS_eofbit | IOS_failbit) : (n > 0 ? IOS_goodbit : o.m_rdstate))'),
         ('read/every-chunk-addresses-the-container-holding-its-position-and-the-matching-place-in-the-destination', '!vb_addr_bad'),
         ('read/chunks-in-stream-order-without-gap-or-overlap', '!vb_order_bad && vb_next_abs == o.m_tellg + want'),
         ('read/every-delivered-position-copied-exactly-once-none-else', 'vb_hits == ((o.m_tellg <= X && X < o.m_tellg + want) ? 1 : 0)'),
